@@ -236,6 +236,7 @@ const SEEDS: &[&str] = &[
     "trap", "trap r1", "trap lab", "halt halt", ".end", ".end add", "x\u{e9}", "0x\u{e9}", "#\u{e9}", "r0\u{e9}",
     "r\u{e9}", ".\u{e9}", "\u{e9}", "\u{1F34B} add r0 r0 r0", "add r0 r0 r0 \u{1F34B}", "lab\u{e9} add r0 r0 r0",
     "\"\u{e9}", "\"", "\\", "r7;x", "x10;c", "#5;c", "add r0,r0,#5;c", "lab .break", ".break .break", ".break",
+    "r8", "r9", "R8", "R9", "add r8 r9 r0", "add r0 r0 r8", "r8 add r0 r0 r0", "r9: halt", "not r0,r9", "r8,", "jmp r8", "R9 .fill x1", ".break;c", ".end;x", "halt;c",
     "lab .orig x3000", ".orig x3000 lab", "lab .end", "push r0", "call x", "rets", "pop",
     ".blkw #-1", ".blkw x0", ".fill #-32768", ".orig #-1", "br #-2", "br #-257", "jsr #-1025", "ldr r0 r0 #-33",
     "x12345", ".orig x3000000", "a 0x123456", "#99999", "x-12345", "0xFFFFF add r0 r0 r0", ".stringz \"caf\u{e9}\\n\"",
